@@ -182,6 +182,9 @@ NOTES = {
     'C05-asmatrix-inplace-sum': 'round 5, first run: MISSED (OpGraph.as_matrix was only exercised by the C16/C17 stand-ins, with complex operators throughout). r_C05 compares OpGraph.as_matrix with the symbolic meaning; operator maps mix real and complex matrices (also in r_C16, r_C17)',
     'C05-asmatrix-skip-zero-coeff': 'round 5, first run: MISSED. Same addition (cancelling chain lists give edges whose coefficients are all zero)',
     'C14-arnoldi-classical-gram-schmidt': 'round 5, first run: MISSED. r_C14 has general matrices with singular values from 1 to 1e-12 (n = 40, 50, 20-25 iterations), orthonormality to 1e-7',
+    'C02-mpo-numeric-fill-unmasked': 'round 5, first run: MISSED (r_C02 only built MPOs with fill="random"/"postpone"). r_C02 now also uses explicit scalar fills (real, complex, negative)',
+    'C06-fermi-hubbard-memoized': 'round 5, first run: MISSED (every case called a constructor once). r_C06 overwrites the first result in place and calls the constructor again; engine F reports the caching decorator as no_state_kept_across_calls (refuted, confirmed natively)',
+    'C19-opgraphnode-keeps-edge-lists': 'round 5, first run: MISSED (engine F refuted no_capture, but no bounded case confirmed it). The r_C19 constructor history builds node 0 of two graphs from the same caller-owned edge-id lists',
     'C17-optree-node-children-alias': 'round 5, first run: MISSED. r_C17 builds two tree nodes from one list and extends one; engine F distinguishes keeping the *elements* of a list (allowed for nodes) from keeping the list itself',
     'C06-zero-coeff-filter-tolerance': 'first run: MISSED. r_C06 now includes parameter points scaled by 1e-9 ... 1e+12 (every parameter value is legal)',
 }
